@@ -407,8 +407,18 @@ class XEval:
                 return ("b", r if isinstance(op, ast.Is) else not r)
             raise AnalysisError(f"XFIELD-1: comparison {norm(e)} not modelled")
         if isinstance(e, ast.BoolOp):
-            vals = [self.truth(self.ev(v, env, f)) for v in e.values]
-            return ("b", all(vals) if isinstance(e.op, ast.And) else any(vals))
+            is_and = isinstance(e.op, ast.And)
+            for v in e.values:  # short-circuit, left to right
+                t = self.truth(self.ev(v, env, f))
+                if t != is_and:
+                    return ("b", t)
+            return ("b", is_and)
+        if isinstance(e, ast.IfExp):
+            return self.ev(e.body if self.truth(self.ev(e.test, env, f)) else e.orelse, env, f)
+        if isinstance(e, ast.NamedExpr) and isinstance(e.target, ast.Name):
+            v = self.ev(e.value, env, f)
+            env[e.target.id] = v
+            return v
         if isinstance(e, ast.UnaryOp) and isinstance(e.op, ast.Not):
             return ("b", not self.truth(self.ev(e.operand, env, f)))
         if isinstance(e, ast.SetComp) and len(e.generators) == 1:
